@@ -45,12 +45,8 @@ Theorem C11_container_full_refuted : ~ container_full_statement.
 Proof. exact container_full_refuted. Qed.
 Print Assumptions C11_container_full_refuted.
 
-(* the four witnesses, one theorem each (so that a repair invalidates exactly its own):
-   - defect #4: a list default whose length equals n is dealt element-wise ([1,2], n=2: d0 gets 1, d1 gets 2) *)
-Theorem C11_refuted_default_dealt :
-  ~ meets (spec_expect (KList EInt) [Some (VList [VInt 1; VInt 2]); Some (VList [VInt 1; VInt 2])] None) w_dealt.
-Proof. exact refuted_default_dealt. Qed.
-Print Assumptions C11_refuted_default_dealt.
+(* the witnesses, one theorem each (so that a repair invalidates exactly its own).  The witness of defect #4 (a list
+   default of length n dealt element-wise) is retired with the repair of FieldWrapper.default; corpus/C11/01-* replays it. *)
 (* - defect #5: `--xs 7` delivers the scalar 7 to a List[int] field *)
 Theorem C11_refuted_bare_scalar :
   ~ meets (spec_expect (KList EInt) [Some (VList []); Some (VList [])] (Some [t7])) w_bare.
@@ -68,7 +64,8 @@ Proof. exact refuted_tuple_arity. Qed.
 Print Assumptions C11_refuted_tuple_arity.
 
 (* container kinds, what does hold: bracketed literals of the item type (right arity for fixed tuples), and a default that
-   the packaging treats as one value (a list default of length n at top level is excluded: `default_safe`) *)
+   the packaging treats as one value: `default_safe` is selected by the regenerated packaging chain - with the `single_value`
+   test of the repaired FieldWrapper.default it is `true` for every default; without it a list default of length n is excluded *)
 Theorem C11_container_partial : forall dests k cd cli,
   layout_ok dests -> 2 <= List.length dests -> scalar_kind k = false ->
   (level (hd "" dests) <> 1 -> cd <> None) ->
